@@ -383,3 +383,53 @@ Print Assumptions C13_rule_error_classes.
 Theorem C13_empty_valueerror : forall ev o, parse_rfc ev o [] = RErr EValue.
 Proof. exact empty_valueerror. Qed.
 Print Assumptions C13_empty_valueerror.
+
+(* ------------------------------------------------------------------------------------------------
+   Regenerated model: coq/gen/RstrGen.v is produced on every run by harness/gen_rstr.py from the
+   Python AST of /repo/src/dateutil/rrule.py (fail-closed; accepted subset and call table in its
+   header and in notes/rstr.md).  The theorems below say that the translated code IS the hand model
+   the theorems above are about.  A change of the translated methods changes gen_* and breaks these
+   obligations; a change outside the accepted subset, or of the AST-pinned hand-modelled methods
+   (_parse_rfc, _parse_date_value, _parse_date), aborts the translator and poisons RstrGen.v. *)
+From V Require Import rstr.RstrGenBase gen.RstrGen rstr.RstrGenThm.
+
+(* _freq_map / _weekday_map (dict literals of the class) and FREQNAMES *)
+Theorem C13_gen_tables : (forall v, g_lookup tbl_freq_map v = match freq_of v with Some f => GOk f | None => GExc XKey end)
+  /\ (forall v, g_lookup tbl_weekday_map v = match wday_of v with Some f => GOk f | None => GExc XKey end)
+  /\ tblFREQNAMES = freq_names.
+Proof. exact (conj tbl_freq_map_spec (conj tbl_weekday_map_spec eq_refl)). Qed.
+Print Assumptions C13_gen_tables.
+
+(* one BYDAY member as _handle_BYWEEKDAY reads it (the '(' form, the index scan, weekdays[..](n)) *)
+Theorem C13_gen_handle_BYWEEKDAY : forall ig name value kw,
+  gopt (gen_handle_BYWEEKDAY ig name value kw) = option_map (fun l => set_byweekday l kw) (wd_list value).
+Proof. exact gen_handle_BYWEEKDAY_spec. Qed.
+Print Assumptions C13_gen_handle_BYWEEKDAY.
+
+(* getattr(self, "_handle_" + name)(...) for every upper-cased name: _handle_int, _handle_int_list,
+   _handle_FREQ, _handle_WKST, _handle_UNTIL, _handle_BYWEEKDAY and the alias table *)
+Theorem C13_gen_dispatch : forall ig n value kw,
+  gres_res (gen_dispatch ig (upper n) value kw) = handle ig (upper n) value kw.
+Proof. exact gen_dispatch_spec. Qed.
+Print Assumptions C13_gen_dispatch.
+
+(* _parse_rfc_rrule up to the constructor call *)
+Theorem C13_gen_parse_rfc_rrule : forall ig line,
+  gres_res (gen_parse_rfc_rrule ig line) =
+  match parse_rrule_kw ig line with
+  | Ok kw => if isNone (k_freq kw) then Err EValue else Ok kw
+  | Err e => Err e
+  end.
+Proof. exact gen_parse_rfc_rrule_spec. Qed.
+Print Assumptions C13_gen_parse_rfc_rrule.
+
+Theorem C13_gen_parse_rule : forall ev ig line st,
+  parse_rule ev ig line st =
+  match gres_res (gen_parse_rfc_rrule ig line) with Ok kw => ctor ev st kw | Err e => Err e end.
+Proof. exact gen_parse_rule_spec. Qed.
+Print Assumptions C13_gen_parse_rule.
+
+(* rrule.__str__ *)
+Theorem C13_gen_to_str : forall r, gen_to_str r = to_str r.
+Proof. exact gen_to_str_spec. Qed.
+Print Assumptions C13_gen_to_str.
